@@ -7,6 +7,19 @@ From PydoctorVerif Require Import Base.Sexp Model.DocFlow Model.DocFlowIR Gen.Do
 Import ListNotations.
 Local Open Scope N_scope.
 
+(* split on the leftmost ATOMIC test of a boolean expression (so that the same test written as `a and not b` or as
+   `not (not a or b)` gives the same case analysis) *)
+Ltac split_atom b :=
+  lazymatch b with
+  | negb ?x => split_atom x
+  | andb ?x ?y => first [split_atom x | split_atom y]
+  | orb ?x ?y => first [split_atom x | split_atom y]
+  | true => fail
+  | false => fail
+  | context [match _ with _ => _ end] => fail
+  | _ => destruct b eqn:?
+  end.
+
 (* one step of symbolic execution: evaluate, use what is known, split on the next undetermined test *)
 Ltac sym_step :=
   match goal with
@@ -17,9 +30,13 @@ Ltac sym_step :=
       (* innermost first: never split on a scrutinee that still contains an undetermined test *)
       lazymatch x with
       | context [match _ with _ => _ end] => fail
-      | _ => destruct x eqn:?
+      | _ => lazymatch type of x with
+             | bool => split_atom x
+             | _ => destruct x eqn:?
+             end
       end
   end.
+
 (* closes the branches whose recorded test results contradict each other (f = 2 and f = 4, ...) *)
 Ltac absurd_tests :=
   solve [ repeat match goal with
